@@ -215,8 +215,9 @@ func (c *Client) fromJSON(m map[string]any, gvk schema.GroupVersionKind, obj run
 	if err := json.Unmarshal(b, obj); err != nil {
 		return err
 	}
-	// the typed client leaves TypeMeta empty
-	obj.GetObjectKind().SetGroupVersionKind(schema.GroupVersionKind{})
+	// controller-runtime's cache reader sets the GVK on typed objects it returns, and its client
+	// preserves a GVK that was set before a write: typed objects therefore carry their GVK
+	obj.GetObjectKind().SetGroupVersionKind(gvk)
 	return nil
 }
 
